@@ -143,7 +143,13 @@ impl<'de> JsonInput<'de> for &'de FastStr {
     }
 
     fn to_json_slice(&self) -> JsonSlice<'de> {
-        JsonSlice::FastStr((**self).clone())
+        let cloned = (**self).clone();
+        if cloned.as_ptr() == self.as_ptr() {
+            JsonSlice::FastStr(cloned)
+        } else {
+            // an inline `FastStr` is copied by `clone`: borrow the caller's bytes, which live for 'de
+            JsonSlice::Raw((*self).as_bytes())
+        }
     }
 
     fn from_subset(&self, sub: &'de [u8]) -> JsonSlice<'de> {
